@@ -42,14 +42,28 @@ func checkC17(r *core.Run) {
 	startR := newReach(w, 2, func(f *types.Func) bool { return isXARes(w, f, "Start") })
 	// ---- C17.order
 	if begin != nil {
-		sp := &flow.Spec{W: w, Depth: 0, Classify: func(pkg *packages.Package, call *ast.CallExpr, callee *types.Func) []flow.Tag {
-			switch {
-			case callee == idBuild.Obj:
+		idR := newReach(w, 2, func(f *types.Func) bool { return f == idBuild.Obj })
+		sp := &flow.Spec{W: w, Depth: 0, Inline: 3, Classify: func(pkg *packages.Package, call *ast.CallExpr, callee *types.Func) []flow.Tag {
+			if callee == idBuild.Obj {
 				return []flow.Tag{"idbuild"}
-			case callee != nil && w.Info(callee) != nil && callee.Pkg().Path() == pDSSQL && startR.Hits(callee):
-				return []flow.Tag{"start"}
-			case callee != nil && w.Info(callee) != nil && callee.Pkg().Path() == pDSSQL && reg.Hits(callee):
-				return []flow.Tag{"regstep"}
+			}
+			if callee == nil || w.Info(callee) == nil || callee.Pkg().Path() != pDSSQL {
+				return nil
+			}
+			// a step is named by the one thing it reaches; a function reaching several of them is a sequence of
+			// steps (an extracted part of BeginTx) and is analysed in this context instead
+			var kinds []flow.Tag
+			if startR.Hits(callee) {
+				kinds = append(kinds, "start")
+			}
+			if reg.Hits(callee) {
+				kinds = append(kinds, "regstep")
+			}
+			if idR.Hits(callee) {
+				kinds = append(kinds, "idbuild")
+			}
+			if len(kinds) == 1 && kinds[0] != "idbuild" {
+				return kinds
 			}
 			return nil
 		}}
@@ -63,7 +77,7 @@ func checkC17(r *core.Run) {
 				r.Sites++
 				r.Check(cp.Before.Has("ok:regstep"), "C17.order", key+" -> XaIdBuild after the branch is registered", w.Pos(cp.Call.Pos()), "the identifier uses the branch id the coordinator assigned", "the branch identifier is built on a path where registration has not succeeded (the branch id is not assigned yet)")
 				if len(cp.Call.Args) == 2 {
-					a, b := origin(begin, cp.Call.Args[0], 3), origin(begin, cp.Call.Args[1], 3)
+					a, b := originVia(begin, cp.Fn, cp.Call.Args[0], 3), originVia(begin, cp.Fn, cp.Call.Args[1], 3)
 					r.Check(strings.HasSuffix(a, ".txCtx.XID") && strings.HasSuffix(b, ".txCtx.BranchID"), "C17.id", key+" : identifier = XaIdBuild(global xid, branch id)", w.Pos(cp.Call.Pos()), a+", "+b, "the branch identifier is built from ("+a+", "+b+") instead of the global xid and the coordinator-assigned branch id")
 				}
 			case inSet("start", cp.Tags...):
@@ -76,7 +90,7 @@ func checkC17(r *core.Run) {
 			r.Bad("C17.order", key+" steps present", w.Pos(begin.Decl.Pos()), "BeginTx no longer builds the identifier and starts the branch")
 		}
 		for _, ex := range res.Exits {
-			if ex.St.HasAny("fail:regstep", "fail:start") {
+			if ex.St.HasAny("fail:regstep", "fail:start") || ex.St.Maybe("fail:regstep") || ex.St.Maybe("fail:start") {
 				r.Sites++
 				r.Check(ex.Class != flow.ExitOK, "C17.order", key+" "+exitRole(ex, func(t string) bool { return strings.HasPrefix(t, "fail:") })+" returns an error", w.Pos(ex.Pos), "failure surfaces", "a failed registration / XA START returns nil")
 			}
@@ -142,13 +156,15 @@ func checkC17(r *core.Run) {
 	if cm := r.Anchor("C17.legal", methodInfo(w, xc, "Commit"), "XAConn.Commit"); cm != nil {
 		endR := newReach(w, 2, func(f *types.Func) bool { return isXARes(w, f, "End") })
 		rbR := newReach(w, 2, func(f *types.Func) bool { return isXARes(w, f, "Rollback") })
-		sp := &flow.Spec{W: w, Depth: 1, Classify: func(pkg *packages.Package, call *ast.CallExpr, callee *types.Func) []flow.Tag {
+		prepR := newReach(w, 2, func(f *types.Func) bool { return isXARes(w, f, "XAPrepare") })
+		sp := &flow.Spec{W: w, Depth: 1, Inline: 3, Classify: func(pkg *packages.Package, call *ast.CallExpr, callee *types.Func) []flow.Tag {
 			switch {
 			case isXARes(w, callee, "XAPrepare"):
 				return []flow.Tag{"prepare"}
 			case isXARes(w, callee, "Commit"):
 				return []flow.Tag{"xacommit"}
-			case isXARes(w, callee, "End") || (callee != nil && w.Info(callee) != nil && core.RecvNamed(callee) == xc && endR.Hits(callee) && !rbR.Hits(callee)):
+			case isXARes(w, callee, "End") || (callee != nil && w.Info(callee) != nil && core.RecvNamed(callee) == xc && endR.Hits(callee) && !rbR.Hits(callee) && !prepR.Hits(callee)):
+				// (a method reaching both END and PREPARE is an extracted sequence: analysed in this context)
 				return []flow.Tag{"end"}
 			case callee != nil && w.Info(callee) != nil && core.RecvNamed(callee) == xc && strings.Contains(strings.ToLower(callee.Name()), "timeout"):
 				return []flow.Tag{"timeoutcheck"}
@@ -172,9 +188,20 @@ func checkC17(r *core.Run) {
 			r.Bad("C17.legal", key+" -> XA PREPARE after a successful XA END", w.Pos(cm.Decl.Pos()), "phase one never prepares the branch")
 		}
 		for _, ex := range res.Exits {
-			if ex.St.HasAny("fail:end", "fail:timeoutcheck", "fail:prepare") {
+			if ex.St.HasAny("fail:end", "fail:timeoutcheck", "fail:prepare") || ex.St.Maybe("fail:end") || ex.St.Maybe("fail:timeoutcheck") || ex.St.Maybe("fail:prepare") {
 				r.Sites++
 				role := exitRole(ex, func(t string) bool { return strings.HasPrefix(t, "fail:") })
+				// the failure handler's result is handed on: the failure surfaces exactly when the handler yields
+				// an error on every path, which is its own obligation below (one finding at its root, not one per
+				// return that relies on it)
+				if ex.Class != flow.ExitErr && len(ex.Results) == 1 {
+					if c, ok := ast.Unparen(ex.Results[0]).(*ast.CallExpr); ok {
+						if h := core.Callee(cm.Pkg.TypesInfo, c); h != nil && core.RecvNamed(h) == xc && strings.HasSuffix(h.Name(), "ErrorHandle") {
+							r.OK("C17.surface", key+" hands on the result of "+h.Name()+" after a failed step", w.Pos(ex.Pos), "surfaces iff "+h.Name()+" always returns an error (checked as its own obligation)")
+							continue
+						}
+					}
+				}
 				r.Check(ex.Class == flow.ExitErr, "C17.surface", key+" "+role+" returns an error", w.Pos(ex.Pos), "failure before prepare surfaces",
 					"after a failed end / timeout check / prepare the method returns a value that can be nil (the result of the rollback): the caller sees the statement as successful although the branch was rolled back")
 			}
